@@ -206,7 +206,11 @@ def _in_domain(prog):
 
 
 def _strategy():
-    return gp.programs(allow_rec=False, allow_evidence=False, allow_neg_query=False).filter(_in_domain).map(
+    from hypothesis import strategies as st
+
+    kw = dict(allow_rec=False, allow_evidence=False, allow_neg_query=False)
+    # every third program is drawn with many negative body literals
+    return st.one_of(gp.programs(**kw), gp.programs(**kw), gp.programs(neg_bias=True, **kw)).filter(_in_domain).map(
         lambda p: {"prog": p})
 
 
@@ -214,9 +218,84 @@ def render(case):
     return sem.render_program(case["prog"])
 
 
-KNOWN_CLASSES = {}
+def bodyless_multihead_ad(prog):
+    """The program has an annotated disjunction with >= 2 heads and no body, or with a body that is certainly
+    true for some ground instance (the ground program then has bare choice nodes for its heads)."""
+    if any(s[0] == "ad" and len(s[1]) >= 2 and not s[2] for s in prog):
+        return True
+    if not any(s[0] == "ad" and len(s[1]) >= 2 for s in prog):
+        return False
+    try:
+        ref = sem.evaluate(prog, max_choices=12, max_worlds=1 << 14, want_masks=True)
+    except Exception:
+        return False
+    for head, pos, neg, ch in ref.rules:
+        if ch is None or len(ref.gp.choices[ch[0]]) < 2:
+            continue
+        m = ref.posw
+        for a in pos:
+            m &= ref.masks.get(a, 0)
+        for a in neg:
+            m &= ~ref.masks.get(a, 0)
+        if m == ref.posw:
+            return True
+    return False
+
+
+def negated_fact_alias(prog):
+    """Some derived ground atom is true in exactly the worlds in which one probabilistic fact (or body-less AD
+    head) is false, e.g. 'r :- \\+p.': the ground program then has no node for it, only the negated fact node."""
+    try:
+        qs = [s for s in prog if s[0] == "query"]
+        ref = sem.evaluate(prog, max_choices=12, max_worlds=1 << 14, want_masks=True)
+    except Exception:
+        return False
+    facts = set()
+    for s in prog:
+        if s[0] == "pfact":
+            facts.add((s[2][0], tuple((t[0], t[1]) for t in s[2][1])))
+        elif s[0] == "ad" and not s[2]:
+            for _, a in s[1]:
+                if all(t[0] != "v" for t in a[1]):
+                    facts.add((a[0], tuple((t[0], t[1]) for t in a[1])))
+    for f in facts:
+        if f not in ref.masks:
+            continue
+        fm = (ref.full & ~ref.masks[f]) & ref.posw
+        for a, m in ref.masks.items():
+            if a != f and (m & ref.posw) == fm:
+                return True
+    return False
+
+
+def aliased_atoms(prog):
+    """Two different ground atoms that are neither certainly true nor certainly false hold in exactly the same
+    worlds (e.g. 'r :- p.' as the only clause of r): the compact ground program of the bn task gives them one
+    node, which carries one name only."""
+    try:
+        ref = sem.evaluate(prog, max_choices=12, max_worlds=1 << 14, want_masks=True)
+    except Exception:
+        return False
+    seen = {}
+    live = ref.posw
+    for a, m in ref.masks.items():
+        mm = m & live
+        if mm == 0 or mm == live:
+            continue
+        if mm in seen:
+            return True
+        seen[mm] = a
+    return False
+
+
+KNOWN_CLASSES = {
+    "aliased_atoms": lambda case, failure: aliased_atoms(case["prog"]),
+    "shared_var_call": lambda case, failure: gp.shared_var_call(case["prog"]),
+    "bodyless_multihead_ad": lambda case, failure: bodyless_multihead_ad(case["prog"]),
+    "negated_fact_alias": lambda case, failure: negated_fact_alias(case["prog"]),
+}
 
 SUBCHECKS = [
-    SubCheck("export", check, strategy=_strategy, budget={"quick": 400, "thorough": 8000},
+    SubCheck("export", check, strategy=_strategy, budget={"quick": 600, "thorough": 10000},
              timeout={"quick": 10, "thorough": 30}, render=render),
 ]
